@@ -1,0 +1,11 @@
+//go:build !verif
+
+package yang
+
+// verifEnabled guards the monitoring hooks used by external verification
+// machinery. Without the "verif" build tag the hooks are dead code.
+const verifEnabled = false
+
+func verifEmit(ev string, kv ...string) {}
+
+func verifYield(point string) {}
